@@ -28,6 +28,7 @@ def run(c):
     r3(c)
     r4(c)
     r5(c)
+    r6(c)
 
 
 def r1(c):
@@ -108,8 +109,8 @@ def r2(c):
                     and len(n.value.args) >= 2:
                 ctors.append((n.targets[0].id, norm(n.value.args[0]), norm(n.value.args[1]), pol(n), n))
         handlers = [x for x in calls_in(fn) if norm(x.func) == "rule.handler"]
-        if len(ctors) != 4 or len(handlers) != 2:
-            raise AnchorError(f"{fname}: expected 4 peer constructions and 2 handler calls, found {len(ctors)}/{len(handlers)}")
+        if not ctors or len(handlers) != 2:
+            raise AnchorError(f"{fname}: expected peer constructions and 2 handler calls, found {len(ctors)}/{len(handlers)}")
         # which variable wraps the local device (same in both arms)
         dev_vars = {v for v, ms, dv, p, n in ctors if dv == "device"}
         oth_vars = {v for v, ms, dv, p, n in ctors if dv == other}
@@ -118,20 +119,36 @@ def r2(c):
         if not ok:
             continue
         dv, ov = list(dev_vars)[0], list(oth_vars)[0]
+        by_stmt = {id(n): (v, ms, d_, p) for v, ms, d_, p, n in ctors}
+
+        def built_from(arg, arm):
+            """match sides of the constructions reaching this handler argument (those made in the other arm of the same rule.direct_order test do not reach it)"""
+            out = set()
+            if isinstance(arg, ast.Name):
+                for d in pv.rd.defs(arg):
+                    if d.stmt is not None and id(d.stmt) in by_stmt:
+                        if by_stmt[id(d.stmt)][3] is (not arm):
+                            continue
+                        out.add(by_stmt[id(d.stmt)][1])
+                    else:
+                        out.add("?")
+            return out
         for arm in (True, False):
-            side = {v: ms for v, ms, d_, p, n in ctors if p is arm}
-            want = {dv: "rule.match_left", ov: "rule.match_right"} if arm else {dv: "rule.match_right", ov: "rule.match_left"}
-            c.check("C15.R2", side == want, repo.loc(m, fn), f"{fname}/arm[{'direct' if arm else 'reverse'}]/match-sides",
-                    f"in the {'direct' if arm else 'reverse'} arm the peers are built from {side}; expected {want}", key_text=f"sides-{arm}")
             hs = [h for h in handlers if pol(h) is arm]
             okh = len(hs) == 1 and len(hs[0].args) >= 2
-            if okh:
-                got = [norm(hs[0].args[0]), norm(hs[0].args[1])]
-                left = [v for v, ms in want.items() if ms == "rule.match_left"][0]
-                right = [v for v, ms in want.items() if ms == "rule.match_right"][0]
-                okh = got == [left, right]
-            c.check("C15.R2", okh, repo.loc(m, hs[0] if hs else fn), f"{fname}/arm[{'direct' if arm else 'reverse'}]/handler-args",
-                    f"handler called with ({', '.join(norm(a) for a in hs[0].args[:2]) if hs else '?'}); expected the match_left object first, the match_right object second",
+            an = "direct" if arm else "reverse"
+            if not okh:
+                c.violated("C15.R2", repo.loc(m, fn), f"{fname}/arm[{an}]/handler-args", f"no single handler call in the {an} arm", key_text=f"handler-{arm}")
+                continue
+            h = hs[0]
+            sides = [built_from(h.args[0], arm), built_from(h.args[1], arm)]
+            c.check("C15.R2", sides == [{"rule.match_left"}, {"rule.match_right"}], repo.loc(m, h), f"{fname}/arm[{an}]/match-sides",
+                    f"in the {an} arm the handler's (left, right) arguments are built from {[sorted(x) for x in sides]}; expected rule.match_left for the first and rule.match_right "
+                    "for the second: the handler would see the other side's match groups", key_text=f"sides-{arm}")
+            got = [norm(h.args[0]), norm(h.args[1])]
+            want = [dv, ov] if arm else [ov, dv]
+            c.check("C15.R2", got == want, repo.loc(m, h), f"{fname}/arm[{an}]/handler-args",
+                    f"handler called with ({', '.join(got)}); in the {an} arm the device is the rule's {'left' if arm else 'right'} side, expected ({', '.join(want)})",
                     key_text=f"handler-{arm}")
         # DTO merges and Pair
         pairs = [x for x in calls_in(fn) if call_name(x) == "Pair"]
@@ -279,3 +296,70 @@ def r5(c):
                         ok = isinstance(last, ast.Raise) and "ValueError" in norm(last)
             c.check("C15.R5", ok, repo.loc(em, call_), f"{q}/merge-conflict-surfaced", f"`{norm(call_)[:60]}` is not inside a try that turns MergeForbiddenError into ValueError", key_text="surfacing")
     c.floor("C15.R5", "merge() sites in executor", n, 8)
+
+
+def _optional_int_fields(repo, mod, cls):
+    out = set()
+    for st in cls.body:
+        if isinstance(st, ast.AnnAssign) and isinstance(st.target, ast.Name):
+            a = norm(st.annotation).replace(" ", "")
+            if a in ("Optional[int]", "int|None", "None|int", "Union[int,None]", "Union[None,int]", "typing.Optional[int]"):
+                out.add(st.target.id)
+    return out
+
+
+def truthiness_uses(fn):
+    """expressions evaluated for their truth value: if/elif/while/conditional-expression tests, operands of and/or/not, assert tests"""
+    out = []
+
+    def test(e):
+        if isinstance(e, ast.BoolOp):
+            for v in e.values:
+                test(v)
+        elif isinstance(e, ast.UnaryOp) and isinstance(e.op, ast.Not):
+            test(e.operand)
+        else:
+            out.append(e)
+    for n in ast.walk(fn):
+        if isinstance(n, (ast.If, ast.While, ast.IfExp, ast.Assert)):
+            test(n.test)
+        elif isinstance(n, ast.comprehension):
+            for i in n.ifs:
+                test(i)
+    return out
+
+
+def r6(c):
+    repo = c.repo
+    c.rule("C15.R6", "0 is an interface number: wherever the mesh executor decides from a handler's interface request (fields typed Optional[int] of the model class a parameter is "
+                     "annotated with: lag, subif, svi, ...) whether to create a LAG / sub-interface / SVI, the field is compared with None, never used for its truth value "
+                     "(unit 0, Port-channel0 or Vlan0 would silently be skipped and the session would sit on the parent interface on both ends)")
+    m = repo.module(EXE)
+    nfun = nsites = 0
+    for q, fn0 in m.defs.items():
+        if not isinstance(fn0, ast.FunctionDef):
+            continue
+        fn = repo.func(EXE, q, canon=False)
+        typed = {}
+        for a in fn.args.args + fn.args.kwonlyargs:
+            if a.annotation is None:
+                continue
+            r = repo.resolve(m, norm(a.annotation))
+            if r and isinstance(r[2], ast.ClassDef):
+                fs = _optional_int_fields(repo, r[0], r[2])
+                if fs:
+                    typed[a.arg] = (r[2].name, fs)
+        if not typed:
+            continue
+        nfun += 1
+        c.count("functions")
+        for e in ast.walk(fn):
+            if isinstance(e, ast.Attribute) and isinstance(e.value, ast.Name) and e.value.id in typed and e.attr in typed[e.value.id][1]:
+                nsites += 1
+        for e in truthiness_uses(fn):
+            if isinstance(e, ast.Attribute) and isinstance(e.value, ast.Name) and e.value.id in typed and e.attr in typed[e.value.id][1]:
+                c.violated("C15.R6", repo.loc(m, e), f"{q}/{norm(e)}", f"`{norm(e)}` ({typed[e.value.id][0]}.{e.attr}: Optional[int]) is tested for truth: the value 0 counts as 'not requested', "
+                           "so the sub-interface / LAG / SVI the rule selected is not created and the addresses and peers land on the parent interface", key_text=f"truthiness:{e.attr}")
+    c.floor("C15.R6", "functions with Optional[int] model parameters", nfun, 2)
+    c.floor("C15.R6", "uses of Optional[int] model fields", nsites, 8)
+    c.holds("C15.R6", m.rel, "mesh.executor/optional-int-tests", f"{nsites} uses in {nfun} functions, none in truth-value position") if not [1 for v in c.instances if v["rule"] == "C15.R6" and v["verdict"] != "HOLDS"] else None
